@@ -249,6 +249,15 @@ impl<'a> VisitMut for Rules<'a> {
                     self.ctx.used("R1");
                 }
             }
+            syn::Expr::Lit(l) if self.ctx.on("R10") && matches!(&l.lit, syn::Lit::Int(i) if i.suffix() == "f64") => {
+                if let syn::Lit::Int(i) = &l.lit {
+                    let tok = i.base10_digits().to_string();
+                    let name = syn::Ident::new(&lit_name(&tok), proc_macro2::Span::call_site());
+                    self.ctx.literals.insert(tok);
+                    *e = syn::parse_quote!(F64::#name());
+                    self.ctx.used("R10");
+                }
+            }
             syn::Expr::Lit(l) if self.ctx.on("R10") => {
                 if let syn::Lit::Float(f) = &l.lit {
                     let tok = f.to_string();
